@@ -12,7 +12,7 @@ RULE = ('case = (specifier, hash, cipher/key size, coded count, passphrase class
         'with the reference; non-trivial = needs more than one hash context, or count shorter than salt+passphrase, or count not a multiple '
         'of len(salt+passphrase), or empty/long/non-ASCII passphrase; distinct = distinct case descriptors')
 ASSUMPTIONS = ['hashlib digests are correct', 'vf.ref.sym.s2k follows RFC 4880 3.7.1 (cross-checked against gpg symmetric encryption when gpg is available)']
-MIN_COUNTERS = {'derive_compared': 300, 'multi_context': 50, 'count_values': 200, 'count_boundary_window': 300}
+MIN_COUNTERS = {'derive_compared': 300, 'multi_context': 50, 'count_values': 200, 'count_boundary_window': 300, 'end_to_end_derivations': 50}
 BUDGET = {'quick': (600, 1500), 'thorough': (1500, 3600)}
 
 HASHES = [1, 2, 3, 8, 9, 10, 11]
@@ -53,8 +53,17 @@ def cases(tier, seed):
     cs.append({'stored': True})
     for i in range(6):
         cs.append({'reuse': i, 'seed': seed})
+    # the derivation as the public operations use it: what a message / a protected key stores must open with the reference derivation over the
+    # UTF-8 octets of exactly the passphrase the caller gave (no trimming, folding or Unicode normalisation on the way), and the other way round
+    for j in range(len(E2E_PASSES)):
+        for way in ('message-out', 'message-in', 'key-out', 'key-in'):
+            cs.append({'e2e': way, 'pw': j})
     cs.append({'gpg': True})
     return cs
+
+
+E2E_PASSES = ['plain ascii', 'Cafe\u0301 (decomposed)', 'Caf\u00e9 (composed)', '\u212bngstr\u00f6m \u2126 \ufb01', '\u1112\u1161\u11ab jamo', ' leading and trailing ', 'newline at end\n',
+              'tab\tinside', 'UPPER lower', '\U0001f511 key emoji', 'x' * 200, b'raw \xff\xfe octets', b'ascii as bytes', '\u00df\u017f\u0131 case-fold traps', 'a\u200bb zero width']
 
 
 def run_case(ctx, d):
@@ -65,6 +74,8 @@ def run_case(ctx, d):
         return _reuse(ctx, d)
     if d.get('gpg'):
         return _gpg(ctx)
+    if 'e2e' in d:
+        return _e2e(ctx, d)
     if 'plen' in d:
         pn, pw = 'len%d' % d['plen'], bytes((i * 7 + 3) % 251 for i in range(d['plen']))
         ctx.count('count_boundary_window')
@@ -145,6 +156,55 @@ def _reuse(ctx, d):
         ctx.count('reuse_steps')
         if got != exp:
             ctx.fail('s2k-object-reuse-mismatch', {'step': step, 'changed': what, 'state': {k: (hx(v) if isinstance(v, bytes) else v) for k, v in state.items()}, 'got': hx(got), 'expected': hx(exp)})
+    ctx.nontrivial(d)
+
+
+def _e2e(ctx, d):
+    import warnings
+    import pgpy
+    from pgpy.constants import SymmetricKeyAlgorithm, HashAlgorithm, CompressionAlgorithm
+    from ..ref import keys as RK
+    from .. import pool, encwork
+    pw = E2E_PASSES[d['pw']]
+    octets = pw.encode('utf-8') if isinstance(pw, str) else pw
+    where = {'way': d['e2e'], 'passphrase': repr(pw)[:60]}
+    ctx.count('evaluations')
+    ctx.count('end_to_end_derivations')
+    with warnings.catch_warnings():
+        warnings.simplefilter('ignore')
+        if d['e2e'] == 'message-out':
+            m = pgpy.PGPMessage.new(b'e2e', compression=CompressionAlgorithm.Uncompressed)
+            blob = bytes(m.encrypt(pw, cipher=SymmetricKeyAlgorithm.AES256, hash=HashAlgorithm.SHA256))
+            view = encwork.ref_open(blob, [('pass', octets)])
+            if view['results'][0] is None or isinstance(view['results'][0], Exception):
+                ctx.fail('s2k-of-public-operation-differs-from-reference', dict(where, what='message written by PGPy does not open with S2K(UTF-8 octets of the passphrase)'))
+        elif d['e2e'] == 'message-in':
+            lit = encwork.literal_packet(b'e2e', b'b', b'', 0)
+            blob = encwork.ref_encrypt(lit, 9, bytes(range(32)), [('pass', octets, (3, 8, b'SALTsalt', 0x40), False)])
+            try:
+                dec = pgpy.PGPMessage.from_blob(blob).decrypt(pw)
+                if bytes(dec._message._contents) != b'e2e':
+                    raise ValueError('different plaintext')
+            except Exception as e:
+                ctx.fail('s2k-of-public-operation-differs-from-reference', dict(where, what='reference message does not open under PGPy', err='%s: %s' % (type(e).__name__, str(e)[:100])))
+        elif d['e2e'] == 'key-out':
+            k = pool.pgpy_key('ed25519_3', fresh=True, uid='e2e')
+            k.protect(pw, SymmetricKeyAlgorithm.AES128, HashAlgorithm.SHA256)
+            body = [p for p in wire.split(bytes(k)) if p.tag == 5][0].body
+            try:
+                RK.parse_sec(body, octets)
+            except Exception as e:
+                ctx.fail('s2k-of-public-operation-differs-from-reference', dict(where, what='key protected by PGPy does not open with S2K(UTF-8 octets of the passphrase)', err=repr(e)[:100]))
+        else:
+            prot = {'usage': 254, 'cipher': 7, 's2k': (3, 2, b'saltSALT', 0x30), 'iv': bytes(range(16)), 'passphrase': octets}
+            k = pool.pgpy_bare('ed25519_3', protect=prot)
+            try:
+                with k.unlock(pw):
+                    k.sign(b'x') if k.userids else None
+                    if not k._key.unlocked:
+                        raise ValueError('not unlocked')
+            except Exception as e:
+                ctx.fail('s2k-of-public-operation-differs-from-reference', dict(where, what='key protected by the reference does not unlock under PGPy', err='%s: %s' % (type(e).__name__, str(e)[:100])))
     ctx.nontrivial(d)
 
 
